@@ -12,7 +12,7 @@
 (* model-checked scheduler to the implementation: the invariants TLC       *)
 (* proves for N2Work (Bookkeeping, C19, C04) speak about these operators.  *)
 (***************************************************************************)
-EXTENDS N2Graph
+EXTENDS N2Graph, SchedCore
 
 SchedStates  == {"Unknown", "Want", "Ready", "Queued", "Running", "Done", "Failed"}
 SchedCounted == SchedStates \ {"Unknown"}
@@ -36,14 +36,9 @@ SchedInit(g) ==
 
 \* BuildStates::set for a set of simultaneous changes (new: step -> new state) applied to
 \* iv = [st, ready, pending, counts].
-SchedSet(g, iv, new) ==
-  [st |-> [s \in DOMAIN iv.st |-> IF s \in DOMAIN new THEN new[s] ELSE iv.st[s]],
-   counts |-> [x \in SchedCounted |->
-                  (iv.counts[x] + Cardinality({s \in DOMAIN new : ~IsPhony(g, s) /\ new[s] = x}))
-                  - Cardinality({s \in DOMAIN new : ~IsPhony(g, s) /\ iv.st[s] = x})],
-   pending |-> (iv.pending + Cardinality({s \in DOMAIN new : iv.st[s] = "Unknown"}))
-               - Cardinality({s \in DOMAIN new : new[s] \in {"Done", "Failed"}}),
-   ready |-> (iv.ready \ DOMAIN new) \cup {s \in DOMAIN new : new[s] = "Ready"}]
+\* (the arithmetic itself is SchedCore!CoreSet, shared with the Apalache check)
+PhonySteps(g) == {s \in StepIds(g) : IsPhony(g, s)}
+SchedSet(g, iv, new) == CoreSet(PhonySteps(g), iv, new)
 
 \* want_build: a freshly wanted step is Ready iff every producer of its ordering inputs is Done.
 SchedReadyNow(g, st, s) == \A p \in OrdProd(g, s) : st[p] = "Done"
@@ -59,9 +54,5 @@ SchedPromoted(g, st, s) ==
 SchedPoolHasRoom(g, poolRun, q) == PoolDepth(g, q) = 0 \/ poolRun[q] < PoolDepth(g, q)
 
 \* The invariant the side views must satisfy with respect to the state map.
-SchedConsistent(g, iv) ==
-  /\ \A x \in SchedCounted :
-        iv.counts[x] = Cardinality({s \in StepIds(g) : ~IsPhony(g, s) /\ iv.st[s] = x})
-  /\ iv.pending = Cardinality({s \in StepIds(g) : iv.st[s] \in SchedOpen})
-  /\ iv.ready = {s \in StepIds(g) : iv.st[s] = "Ready"}
+SchedConsistent(g, iv) == CoreConsistent(StepIds(g), PhonySteps(g), iv)
 =============================================================================
